@@ -1,6 +1,7 @@
 package sim
 
 import (
+	"database/sql/driver"
 	"encoding/hex"
 	"fmt"
 	"sort"
@@ -47,14 +48,37 @@ func (v Val) Go() interface{} {
 	case "t":
 		t, _ := time.Parse(time.RFC3339Nano, v.V)
 		return t
+	// Go types an application binds besides the plain ones: the driver's
+	// argument converter decides what becomes of them
+	case "U":
+		u, _ := strconv.ParseUint(v.V, 10, 64)
+		return appID(u)
+	case "W":
+		u, _ := strconv.ParseUint(v.V, 10, 64)
+		return uint(u)
+	case "P":
+		u, _ := strconv.ParseUint(v.V, 10, 64)
+		return &u
+	case "X":
+		u, _ := strconv.ParseUint(v.V, 10, 64)
+		return appValuer{u}
+	case "I":
+		i, _ := strconv.ParseInt(v.V, 10, 64)
+		return appInt(i)
 	}
 	return nil
 }
 
+type appID uint64
+type appInt int32
+type appValuer struct{ u uint64 }
+
+func (v appValuer) Value() (driver.Value, error) { return v.u, nil }
+
 // Lit renders the value as a MySQL literal.
 func (v Val) Lit() string {
 	switch v.K {
-	case "i", "u", "f":
+	case "i", "u", "f", "U", "W", "P", "X", "I":
 		return v.V
 	case "s":
 		return "'" + strings.NewReplacer("\\", "\\\\", "'", "\\'").Replace(v.V) + "'"
@@ -329,6 +353,11 @@ func genTable(g *simkit.Gen, name string, o GenOpts) TableDef {
 		// an unsigned 64-bit key whose values need the top bit (snowflake-style ids)
 		t.Cols = append(t.Cols, ColDef{Name: "id", Type: "bigint unsigned"})
 		t.PK = []string{"id"}
+	case "dec":
+		// a DECIMAL key with values of a dozen digits (order numbers with a date
+		// prefix): read back as floating-point numbers by the client
+		t.Cols = append(t.Cols, ColDef{Name: "id", Type: "decimal(16,0)"})
+		t.PK = []string{"id"}
 	case "date":
 		// a day as part of the key (one row per organisation and day)
 		t.Cols = append(t.Cols, ColDef{Name: "org", Type: "int"}, ColDef{Name: "day", Type: "date"})
@@ -392,6 +421,9 @@ func genPK(g *simkit.Gen, c ColDef, i int) Val {
 	}
 	if c.Type == "date" {
 		return VT(time.Date(2024, time.Month(1+g.Intn(3)), 1+g.Intn(9), 0, 0, 0, 0, time.UTC))
+	}
+	if strings.HasPrefix(c.Type, "decimal(16") {
+		return VI(2024010100000 + int64(g.Range(1, 40)))
 	}
 	return VI(int64(g.Range(1, 40)))
 }
